@@ -108,16 +108,42 @@ Theorem C06_apply0_stream f t vals dst :
 Proof. exact (apply0_stream_spec f t vals dst). Qed.
 Print Assumptions C06_apply0_stream.
 
-(* a constant (int, float64, bool, *string, string) is written to EVERY physical position, also to those that
-   are not rows of the frame: under FilteredApply the rows that do not match get the constant, not the zero value
-   (a deviation from the statement's text, see the report). *)
+(* a constant (int, float64, bool, *string, string), for every frame whose index entries are positions of its
+   columns: every row of the frame holds the constant.  When the index has as many entries as the columns have
+   rows (a frame as constructed or read; nothing was filtered out or sliced off), EVERY physical position holds
+   it (a constant column).  Otherwise — a filtered or sliced frame, and the sub-frame of the matching rows that
+   FilteredApply works on — every position that is NOT a row of the frame holds the ZERO VALUE of the constant's
+   type, exactly as for func() T: under FilteredApply the rows that do not match do not get the constant. *)
 Theorem C06_apply0_const f c dst :
-  ferr f = false -> (forall s, c <> CEnum s) ->
+  ferr f = false -> (forall s, c <> CEnum s) -> Forall (fun p => p < phys_len f) (ix f) ->
   exists r, apply0 f (F0Const c) dst = Ok (set_column f dst r)
-    /\ col_type r = const_type c /\ col_len r = phys_len f
-    /\ (forall q, q < phys_len f -> cell_at r q = Ok c).
+    /\ col_type r = const_ctype c /\ col_len r = phys_len f
+    /\ (forall q, In q (ix f) -> cell_at r q = Ok c)
+    /\ (length (ix f) = phys_len f -> forall q, q < phys_len f -> cell_at r q = Ok c)
+    /\ (length (ix f) <> phys_len f ->
+        forall q, q < phys_len f -> ~ In q (ix f) -> cell_at r q = Ok (zero_cell (const_ctype c))).
 Proof. exact (apply0_const_spec f c dst). Qed.
 Print Assumptions C06_apply0_const.
+
+(* the first case needs no premise on the index entries *)
+Theorem C06_apply0_const_full f c dst :
+  ferr f = false -> (forall s, c <> CEnum s) -> length (ix f) = phys_len f ->
+  exists r, apply0 f (F0Const c) dst = Ok (set_column f dst r)
+    /\ col_type r = const_ctype c /\ col_len r = phys_len f
+    /\ (forall q, q < phys_len f -> cell_at r q = Ok c).
+Proof. exact (apply0_const_full_spec f c dst). Qed.
+Print Assumptions C06_apply0_const_full.
+
+(* both cases occur: the same constant on a full frame and on the same frame over a sub-index *)
+Example C06_apply0_const_examples :
+  let cs := [([65%N], ICol [10; 20; 30; 40]%Z)] in
+  apply0 (mkFrame cs [3; 1; 0; 2] false) (F0Const (CInt 7)) [66%N]
+    = Ok (mkFrame (cs ++ [([66%N], ICol [7; 7; 7; 7]%Z)]) [3; 1; 0; 2] false)
+  /\ apply0 (mkFrame cs [2; 0] false) (F0Const (CInt 7)) [66%N]
+    = Ok (mkFrame (cs ++ [([66%N], ICol [7; 0; 7; 0]%Z)]) [2; 0] false)
+  /\ apply0 (mkFrame cs [2; 0] false) (F0Const (CStr (Some [120%N]))) [66%N]
+    = Ok (mkFrame (cs ++ [([66%N], SCol [Some [120%N]; None; Some [120%N]; None])]) [2; 0] false).
+Proof. cbv zeta. repeat split; vm_compute; reflexivity. Qed.
 
 (* setColumn on the physical frame IS tset_col on the logical table: replace in position or append last, the
    new column contributing exactly its cells read through the index *)
@@ -212,10 +238,10 @@ Proof. exact (filtered_apply_filter_err mt ut f c is ff). Qed.
 Print Assumptions C06_filtered_filter_err.
 
 (* ... and THE ROWS THAT DO NOT MATCH: for a program of user functions, constants and copies (no built-in function
-   names), in the destination column of every function instruction (func() T, func(T) U, func(T, T) T) that no later
-   instruction overwrites, every row of the frame that does not match the clause holds the ZERO VALUE of the
-   function's result type (0, 0.0, false, null string).  fun_instr i = Some ty: i calls a user function with
-   result type ty.  [Constants are different: C06_apply0_const — they reach every row.] *)
+   names), in the destination column of every function instruction (func() T, func(T) U, func(T, T) T) AND of every
+   constant instruction that no later instruction overwrites, every row of the frame that does not match the clause
+   holds the ZERO VALUE of the column's type (0, 0.0, false, null string).  fun_instr i = Some ty: i calls a user
+   function with result type ty, or gives a constant of type ty. *)
 Theorem C06_filtered_zero mt ut f c is keep g :
   ferr f = false -> fr_ok f ->
   forallb (fun i => afn_wf (ifn i) && no_builtin (ifn i)) is = true ->
@@ -289,7 +315,8 @@ Proof. repeat split; vm_compute; reflexivity. Qed.
 
 (* Non-vacuity of the FilteredApply theorems: the clause A < 35 on ex2_frame keeps the rows at positions 2 and 0
    (the premise on the filter holds by computation); the function column gets the null string in the row that
-   does not match (position 3) — and the constant column gets the CONSTANT there, not the zero value. *)
+   does not match (position 3) — and the constant column gets the zero value 0 there (and at position 1, which is
+   not a row of the frame at all). *)
 Definition ex2_clause : clause := CLeaf (mkLeaf [65%N] (CmpName (bs 1 0x3c)) (AInt 35) false).
 Definition ex2_fprog : list instr :=
   [ mkInstr (F1 TInt TString [(CInt 10, CStr (Some [51%N])); (CInt 30, CStr (Some []))]%Z) [67%N] [65%N] [];
@@ -301,11 +328,12 @@ Example C06_filtered_premises_satisfiable :
   /\ forallb (fun i => afn_wf (ifn i) && no_builtin (ifn i)) ex2_fprog = true
   /\ fun_instr (mkInstr (F1 TInt TString [(CInt 10, CStr (Some [51%N])); (CInt 30, CStr (Some []))]%Z) [67%N] [65%N] [])
      = Some TString
+  /\ fun_instr (mkInstr (F0Const (CInt 7)) [68%N] [] []) = Some TInt
   /\ filtered_apply [] [] ex2_frame ex2_clause ex2_fprog
      = Ok (mkFrame [([65%N], ICol [10; 20; 30; 40]%Z); ([66%N], ICol [1; 2; 3; 4]%Z);
                     ([83%N], SCol [Some [120%N]; None; Some []; None]);
                     ([67%N], SCol [Some [51%N]; None; Some []; None]);
-                    ([68%N], ICol [7; 7; 7; 7]%Z)] [2; 0; 3] false).
+                    ([68%N], ICol [7; 0; 7; 0]%Z)] [2; 0; 3] false).
 Proof. cbv zeta. repeat split; vm_compute; reflexivity. Qed.
 
 (* NOT PROVED (decided per case by the frameops engine's exact model comparison only): built-in function names.
